@@ -197,9 +197,12 @@ Definition center (k : nat) (T : mat) : mat :=
   let n := length T in
   map (fun r => map (fun c => Qred (nthq r c - col_mean n T c)%Q) (seq 0 k)) T.
 
+(** initial temperatures. The source writes [temperatures[labels < 0] = 0.5] into the array
+    [get_membership(labels_reindex).toarray()], whose dtype is bool: the stored value is True, i.e. 1
+    (not 0.5) for every class of an unlabelled node. Modelled as the code behaves. *)
 Definition dc_init (k : nat) (lu : list Z) (labels : list Z) : mat :=
   map (fun l => if (0 <=? l)%Z then match index_of l lu with Some c => onehot k c | None => repeat 0%Q k end
-                else repeat (1 # 2)%Q k) labels.
+                else repeat 1%Q k) labels.
 
 (** Result [None]: the ValueError of the source (no non-negative label). [expf] is exp (oracle). *)
 Definition dc_fit (adj : adjrows) (labels : list Z) (n_iter : nat) (centering : bool) (scale : Q)
